@@ -7,9 +7,9 @@ EXPL = ("Decided: (R-CAPACITY) fit_in_descendant is `n <= split_after.unwrap_or(
         "(R-KIND/R-RETAG) the id queued is the bucket's tree id; (R-DRAIN, Q-WORKLIST) the worklist is drained before the metadata "
         "is written, each entry is re-split and re-queued under the same gate; (R-NTREES) an explicit Some(n) is used unchanged, "
         "surplus roots are removed and their trees deleted, exactly target - roots.len() new roots are created, each listed; "
-        "(R-STALE) shrinking never looks up deleted items. NOT decided: the arithmetic of the automatic count (it is 0 for "
-        "1-dimensional indexes: a value-level fact no rule here derives -- recorded in DESIGN.md, never reported); the equality "
-        "roots.len() == n as a number.")
+        "(R-STALE) shrinking never looks up deleted items; the automatic count has a lower bound of 1 in an interval evaluation "
+        "of the automatic arm (constants, max, casts, joins, `x` on the true edge of `x > y`). NOT decided: the rest of the "
+        "automatic count's arithmetic; the equality roots.len() == n as a number.")
 
 
 def run(ctx):
